@@ -44,6 +44,26 @@
 /* packet codes accepted by radius_pkt_chk */
 #define VF_RAD_CODE_OK(c)	(((c) >= 1 && (c) <= 5) || ((c) >= 11 && (c) <= 13) || ((c) >= 40 && (c) <= 45))
 
+/* ---- RFC 2865 5 / RFC 2869 5.14: value lengths of the core attributes (specification) ---- */
+#define VF_RAD_T_INT(t)	((t) == 5 || (t) == 6 || (t) == 7 || (t) == 10 || (t) == 12 || (t) == 13 ||	\
+	(t) == 15 || (t) == 16 || (t) == 23 || (t) == 27 || (t) == 28 || (t) == 29 || (t) == 37 ||	\
+	(t) == 38 || (t) == 61 || (t) == 62)
+#define VF_RAD_T_ADDR(t)	((t) == 4 || (t) == 8 || (t) == 9 || (t) == 14)
+#define VF_RAD_T_TEXT(t)	((t) == 1 || (t) == 11 || (t) == 18 || (t) == 19 || (t) == 20 || (t) == 22 ||	\
+	(t) == 24 || (t) == 25 || (t) == 30 || (t) == 31 || (t) == 32 || (t) == 33 || (t) == 34 ||	\
+	(t) == 35 || (t) == 39 || (t) == 63)
+#define VF_RAD_T_KNOWN(t)	(VF_RAD_T_INT(t) || VF_RAD_T_ADDR(t) || VF_RAD_T_TEXT(t) || (t) == 2 ||	\
+	(t) == 3 || (t) == 26 || (t) == 36 || (t) == 60 || (t) == 80)
+#define VF_RAD_RFC_LEN_OK(t, l)	(							\
+	(VF_RAD_T_INT(t) || VF_RAD_T_ADDR(t)) ? ((l) == 4) :				\
+	VF_RAD_T_TEXT(t) ? ((l) >= 1) :							\
+	(t) == 2 ? ((l) >= 16 && (l) <= 128) :	/* User-Password */			\
+	(t) == 3 ? ((l) == 17) :		/* CHAP-Password: ident + 16 */		\
+	(t) == 26 ? ((l) >= 5) :		/* Vendor-Specific: id + >= 1 */		\
+	(t) == 36 ? ((l) == 32) :		/* Login-LAT-Group */			\
+	(t) == 60 ? ((l) >= 5) :		/* CHAP-Challenge */			\
+	(t) == 80 ? ((l) == 16) : 1)		/* Message-Authenticator */
+
 /* ghost: number of bytes of the object `pkt` points to, for the functions without a size argument */
 extern size_t vf_rad_span;
 
@@ -217,8 +237,203 @@ __CPROVER_ensures(buf_size_ret != NULL ==> *buf_size_ret <= buf_size)
 ;
 
 /* ------------------------------------------------------------------------------
- * Part 2 (C15): construction / signing contracts go below this line.
+ * Part 2 (C15): construction side.
+ *
+ * Input model: the packet lives in an exact-size fresh buffer of pkt_buf_size bytes
+ * (vf_rad_span == pkt_buf_size, symbolic 0..VF_RAD_PKT_MAX: EVERY capacity), its header length
+ * field says how much of it is used (20 <= ntohs(len) <= pkt_buf_size, VF_RAD_PKT without
+ * VF_RAD_EXACT), everything already in the buffer is arbitrary.  Content is stated at the ghost
+ * index vf_rad_k; the entry value of byte vf_rad_k of the buffer and the entry length are the
+ * ghosts vf_rad_old / vf_rad_len_old (tied by VF_RAD_SNAP; __CPROVER_old cannot be guarded).
  * ---------------------------------------------------------------------------- */
+extern size_t vf_rad_k;
+extern size_t vf_rad_z;	/* second ghost index: position inside a zero padding */
+extern size_t vf_rad_blk, vf_rad_m;	/* ghost: a 16-byte block of a hidden password, a byte of it */
+extern uint8_t vf_rad_old;
+extern size_t vf_rad_len_old;
+#define VF_RAD_SNAP(pkt)							\
+	__CPROVER_requires((pkt) == NULL || (vf_rad_len_old == VF_RAD_LEN(pkt) &&	\
+	    (vf_rad_k >= vf_rad_span || vf_rad_old == VF_RAD_B(pkt, vf_rad_k))))
+/* no byte below `lim` changes, except the two bytes of the length field */
+#define VF_RAD_PREFIX_KEPT(pkt, lim)						\
+	(vf_rad_k >= (lim) || vf_rad_k >= vf_rad_span || vf_rad_k == 2 || vf_rad_k == 3 ||	\
+	    VF_RAD_B(pkt, vf_rad_k) == vf_rad_old)
+#define VF_RAD_LEN_KEPT(pkt)	(VF_RAD_LEN(pkt) == vf_rad_len_old)
+#define VF_RAD_DATA_MAX		((size_t)253)	/* RADIUS_ATTR_DATA_SIZE_MAX */
+
+static inline int
+radius_attr_len_chk(const uint8_t type, const uint8_t len)
+__CPROVER_assigns()
+__CPROVER_ensures(VF_RV == 0 || VF_RV == EINVAL)
+__CPROVER_ensures((type == 0 || len == 0) ==> VF_RV == EINVAL)
+/* the table agrees with the RFC for every attribute of RFC 2865 (and Message-Authenticator) */
+__CPROVER_ensures((VF_RAD_T_KNOWN(type) && len != 0) ==> ((VF_RV == 0) == VF_RAD_RFC_LEN_OK(type, len)))
+;
+
+static inline int
+radius_pkt_init(rad_pkt_hdr_p pkt, size_t pkt_buf_size, size_t *pkt_size_ret,
+    uint8_t code, uint8_t id, uint8_t *authenticator)
+__CPROVER_requires(pkt_buf_size <= VF_RAD_PKT_MAX)
+__CPROVER_requires(pkt == NULL || __CPROVER_is_fresh(pkt, pkt_buf_size))
+__CPROVER_requires(VF_OUT_OPT(pkt_size_ret, size_t))
+__CPROVER_requires(authenticator == NULL || __CPROVER_is_fresh(authenticator, 16))
+__CPROVER_assigns(pkt != NULL && pkt_buf_size >= VF_RAD_HDR_SIZE: __CPROVER_object_upto((uint8_t *)pkt, VF_RAD_HDR_SIZE))
+__CPROVER_assigns(pkt_size_ret != NULL: *pkt_size_ret)
+__CPROVER_ensures(VF_RV == 0 || VF_RV == EINVAL || VF_RV == EOVERFLOW)
+__CPROVER_ensures(pkt == NULL ==> VF_RV == EINVAL)
+__CPROVER_ensures((pkt != NULL && pkt_buf_size < VF_RAD_HDR_SIZE) ==> VF_RV == EOVERFLOW)
+__CPROVER_ensures((pkt != NULL && pkt_size_ret != NULL) ==> *pkt_size_ret == VF_RAD_HDR_SIZE)
+__CPROVER_ensures(VF_RV == 0 ==> VF_RAD_CODE_OK(code))
+/* RFC 2865 3: code, identifier, length = 20, authenticator */
+__CPROVER_ensures(VF_RV == 0 ==> (VF_RAD_B(pkt, 0) == code && VF_RAD_B(pkt, 1) == id &&
+    VF_RAD_LEN(pkt) == VF_RAD_HDR_SIZE))
+/* request authenticator: zero placeholder for the requests whose authenticator is computed over the
+ * packet (Accounting-, Disconnect-, CoA-Request; RFC 2866 3, RFC 5176 2.3), else the given value */
+#define VF_RAD_INIT_ZERO(code, a)	((code) == 4 || (code) == 40 || (code) == 43 || ((code) == 5 && (a) == NULL))
+__CPROVER_ensures((VF_RV == 0 && !VF_RAD_INIT_ZERO(code, authenticator)) ==> authenticator != NULL)
+__CPROVER_ensures((VF_RV == 0 && !VF_RAD_INIT_ZERO(code, authenticator) && vf_rad_k < 16) ==>
+    VF_RAD_B(pkt, 4 + vf_rad_k) == authenticator[vf_rad_k])
+__CPROVER_ensures((VF_RV == 0 && VF_RAD_INIT_ZERO(code, authenticator) && vf_rad_k < 16) ==> VF_RAD_B(pkt, 4 + vf_rad_k) == 0)
+;
+
+/* packet under construction: header length inside the buffer (and >= 20) */
+#define VF_RAD_BUILD_PRE(pkt, pkt_buf_size)					\
+	__CPROVER_requires(pkt_buf_size == vf_rad_span)				\
+	__CPROVER_requires(VF_RAD_PKT(pkt))					\
+	VF_RAD_SNAP(pkt)
+
+/* reserve an attribute of `len` value bytes at the end of the packet */
+static inline int
+radius_pkt_attr_alloc_raw(rad_pkt_hdr_p pkt, size_t pkt_buf_size, size_t *pkt_size_ret,
+    uint8_t type, uint8_t len, rad_pkt_attr_p *attr_ret, size_t *offset_ret)
+VF_RAD_BUILD_PRE(pkt, pkt_buf_size)
+__CPROVER_requires(VF_OUT_OPT(pkt_size_ret, size_t))
+__CPROVER_requires(VF_OUT_OPT(attr_ret, rad_pkt_attr_p))
+__CPROVER_requires(VF_OUT_OPT(offset_ret, size_t))
+__CPROVER_assigns(pkt != NULL: __CPROVER_object_whole(pkt))
+__CPROVER_assigns(pkt_size_ret != NULL: *pkt_size_ret)
+__CPROVER_assigns(attr_ret != NULL: *attr_ret)
+__CPROVER_assigns(offset_ret != NULL: *offset_ret)
+__CPROVER_ensures(VF_RV == 0 || VF_RV == EINVAL || VF_RV == EOVERFLOW)
+__CPROVER_ensures((VF_RV == EINVAL) == (pkt == NULL || len > VF_RAD_DATA_MAX))
+/* size pre-check: EOVERFLOW iff it does not fit, the needed size is reported, nothing is written */
+__CPROVER_ensures((pkt != NULL && len <= VF_RAD_DATA_MAX) ==>
+    ((VF_RV == EOVERFLOW) == (vf_rad_len_old + 2 + len > pkt_buf_size)))
+__CPROVER_ensures((VF_RV == 0 || VF_RV == EOVERFLOW) ==> (pkt_size_ret == NULL || *pkt_size_ret == vf_rad_len_old + 2 + len))
+__CPROVER_ensures((pkt != NULL && VF_RV != 0) ==> (VF_RAD_LEN_KEPT(pkt) && (vf_rad_k >= vf_rad_span || VF_RAD_B(pkt, vf_rad_k) == vf_rad_old)))
+/* success: pkt_len' == pkt_len + 2 + len <= buffer, attribute header written at the old end */
+__CPROVER_ensures(VF_RV == 0 ==> (VF_RAD_LEN(pkt) == vf_rad_len_old + 2 + len && VF_RAD_LEN(pkt) <= pkt_buf_size &&
+    VF_RAD_B(pkt, vf_rad_len_old) == type && VF_RAD_B(pkt, vf_rad_len_old + 1) == (uint8_t)(2 + len)))
+__CPROVER_ensures(VF_RV == 0 ==> VF_RAD_PREFIX_KEPT(pkt, vf_rad_len_old))
+__CPROVER_ensures((VF_RV == 0 && offset_ret != NULL) ==> *offset_ret == vf_rad_len_old)
+__CPROVER_ensures((VF_RV == 0 && attr_ret != NULL) ==> (VF_RAD_RET_PTR(*attr_ret, rad_pkt_attr_p, pkt) &&
+    VF_RAD_PTR_AT(*attr_ret, pkt, vf_rad_len_old)))
+;
+
+/* the same plus the value bytes */
+static inline int
+radius_pkt_attr_add_raw(rad_pkt_hdr_p pkt, size_t pkt_buf_size, size_t *pkt_size_ret,
+    uint8_t type, uint8_t len, uint8_t *data, rad_pkt_attr_p *attr_ret, size_t *offset_ret)
+VF_RAD_BUILD_PRE(pkt, pkt_buf_size)
+__CPROVER_requires(data == NULL || __CPROVER_is_fresh(data, len == 0 ? 1 : len))
+__CPROVER_requires(VF_OUT_OPT(pkt_size_ret, size_t))
+__CPROVER_requires(VF_OUT_OPT(attr_ret, rad_pkt_attr_p))
+__CPROVER_requires(VF_OUT_OPT(offset_ret, size_t))
+__CPROVER_assigns(pkt != NULL: __CPROVER_object_whole(pkt))
+__CPROVER_assigns(pkt_size_ret != NULL: *pkt_size_ret)
+__CPROVER_assigns(attr_ret != NULL: *attr_ret)
+__CPROVER_assigns(offset_ret != NULL: *offset_ret)
+__CPROVER_ensures(VF_RV == 0 || VF_RV == EINVAL || VF_RV == EOVERFLOW)
+__CPROVER_ensures((VF_RV == EINVAL) == (pkt == NULL || len > VF_RAD_DATA_MAX || (data == NULL && len != 0)))
+__CPROVER_ensures((pkt != NULL && len <= VF_RAD_DATA_MAX && !(data == NULL && len != 0)) ==>
+    ((VF_RV == EOVERFLOW) == (vf_rad_len_old + 2 + len > pkt_buf_size)))
+__CPROVER_ensures((pkt != NULL && VF_RV != 0) ==> (VF_RAD_LEN_KEPT(pkt) && (vf_rad_k >= vf_rad_span || VF_RAD_B(pkt, vf_rad_k) == vf_rad_old)))
+__CPROVER_ensures(VF_RV == 0 ==> (VF_RAD_LEN(pkt) == vf_rad_len_old + 2 + len && VF_RAD_LEN(pkt) <= pkt_buf_size &&
+    VF_RAD_B(pkt, vf_rad_len_old) == type && VF_RAD_B(pkt, vf_rad_len_old + 1) == (uint8_t)(2 + len)))
+__CPROVER_ensures((VF_RV == 0 && vf_rad_k < len) ==> VF_RAD_B(pkt, vf_rad_len_old + 2 + vf_rad_k) == data[vf_rad_k])
+__CPROVER_ensures(VF_RV == 0 ==> VF_RAD_PREFIX_KEPT(pkt, vf_rad_len_old))
+__CPROVER_ensures((VF_RV == 0 && offset_ret != NULL) ==> *offset_ret == vf_rad_len_old)
+;
+
+/* ---- User-Password hiding (RFC 2865 5.2): sizes and frame; the MD5 chain itself is stated in
+ * harness/C15/radius_passwd.c with md5_* replaced by the ghost-stream stubs of stubs/radius_md5.h ---- */
+#define VF_RAD_PW_MAX		((size_t)128)
+#define VF_RAD_PW_ALIGNED(n)	((n) == 0 ? (size_t)16 : (((size_t)(n) + 15) & ~(size_t)15))
+static inline int
+radius_pkt_attr_password_encode(uint8_t *authenticator,
+    uint8_t *password, size_t password_len, uint8_t *key, size_t key_len,
+    uint8_t *buf, size_t buf_size, size_t *buf_size_ret)
+__CPROVER_requires(key_len <= VF_RAD_PKT_MAX && buf_size <= VF_RAD_PKT_MAX)
+__CPROVER_requires(authenticator == NULL || __CPROVER_r_ok(authenticator, 16))
+__CPROVER_requires(password == NULL || password_len > VF_RAD_PW_MAX || password_len == 0 || __CPROVER_r_ok(password, password_len))
+__CPROVER_requires(key == NULL || key_len == 0 || __CPROVER_r_ok(key, key_len))
+__CPROVER_requires(buf == NULL || buf_size == 0 || __CPROVER_w_ok(buf, buf_size))
+__CPROVER_requires(buf_size_ret == NULL || __CPROVER_w_ok(buf_size_ret, sizeof(size_t)))
+__CPROVER_assigns(buf != NULL && buf_size != 0: __CPROVER_object_upto(buf, buf_size))
+__CPROVER_assigns(buf_size_ret != NULL: *buf_size_ret)
+__CPROVER_ensures(VF_RV == 0 || VF_RV == EINVAL || VF_RV == EOVERFLOW)
+__CPROVER_ensures(password_len > VF_RAD_PW_MAX ==> VF_RV == EINVAL)
+/* the padded size is reported for every acceptable length; too small a buffer is EOVERFLOW */
+__CPROVER_ensures((password_len <= VF_RAD_PW_MAX && buf_size_ret != NULL) ==> *buf_size_ret == VF_RAD_PW_ALIGNED(password_len))
+__CPROVER_ensures((password_len <= VF_RAD_PW_MAX && VF_RAD_PW_ALIGNED(password_len) > buf_size) ==> VF_RV == EOVERFLOW)
+__CPROVER_ensures(VF_RV == EOVERFLOW ==> VF_RAD_PW_ALIGNED(password_len) > buf_size)
+#ifdef VF_RAD_MD5_CHAIN
+/* RFC 2865 5.2 with md5_* replaced by the ghost-stream contracts of stubs/radius_md5.h; block
+ * vf_rad_blk, byte vf_rad_m of a block and stream position vf_md5_k are ghost indices:
+ *   b_i = MD5(S || c_(i-1)),  c_0 = Request Authenticator,  c_i = p_i xor b_i,  p padded with zeros
+ * (password and buf are distinct objects here; the in-place use by radius_pkt_sign is a separate job) */
+__CPROVER_requires(vf_md5_n == 0)
+__CPROVER_assigns(VF_MD5_GHOST_ASSIGNS)
+__CPROVER_ensures(VF_RV == 0 ==> vf_md5_n == VF_RAD_PW_ALIGNED(password_len) / 16)
+#define VF_RAD_CHAIN_BLK	(VF_RV == 0 && vf_rad_blk < VF_RAD_PW_ALIGNED(password_len) / 16)
+__CPROVER_ensures(VF_RAD_CHAIN_BLK ==> vf_md5_len[vf_rad_blk] == key_len + 16)
+__CPROVER_ensures((VF_RAD_CHAIN_BLK && vf_md5_k < key_len) ==> vf_md5_at[vf_rad_blk] == key[vf_md5_k])
+__CPROVER_ensures((VF_RAD_CHAIN_BLK && vf_md5_k >= key_len && vf_md5_k - key_len < 16) ==>
+    vf_md5_at[vf_rad_blk] == ((vf_rad_blk == 0) ? authenticator[vf_md5_k - key_len] :
+	buf[16 * (vf_rad_blk - 1) + (vf_md5_k - key_len)]))
+__CPROVER_ensures((VF_RAD_CHAIN_BLK && vf_rad_m < 16) ==> buf[16 * vf_rad_blk + vf_rad_m] ==
+    (uint8_t)(((16 * vf_rad_blk + vf_rad_m < password_len) ? password[16 * vf_rad_blk + vf_rad_m] : 0) ^
+	vf_md5_dig[vf_rad_blk][vf_rad_m]))
+#endif
+;
+
+/* value bytes the attribute occupies: User-Password is padded to 16 (RFC 2865 5.2), a
+ * Message-Authenticator placeholder is 16 zero bytes, everything else as given */
+#define VF_RAD_ADD_VLEN(type, len)						\
+	((type) == 2 ? ((len) == 0 ? (size_t)16 : (((size_t)(len) + 15) & ~(size_t)15)) :	\
+	 (type) == 80 ? (size_t)16 : (size_t)(len))
+
+/* type-checked append (RFC length rules, single User-Password / CHAP-Password / Message-Authenticator) */
+static inline int
+radius_pkt_attr_add(rad_pkt_hdr_p pkt, size_t pkt_buf_size, size_t *pkt_size_ret,
+    uint8_t type, uint8_t len, uint8_t *data, size_t *offset_ret)
+VF_RAD_BUILD_PRE(pkt, pkt_buf_size)
+__CPROVER_requires(data == NULL || __CPROVER_is_fresh(data, len == 0 ? 1 : len))
+__CPROVER_requires(type == 80 || data != NULL)	/* every in-tree caller passes the value; 80 = placeholder */
+__CPROVER_requires(VF_OUT_OPT(pkt_size_ret, size_t))
+__CPROVER_requires(VF_OUT_OPT(offset_ret, size_t))
+__CPROVER_assigns(pkt != NULL: __CPROVER_object_whole(pkt))
+__CPROVER_assigns(pkt_size_ret != NULL: *pkt_size_ret)
+__CPROVER_assigns(offset_ret != NULL: *offset_ret)
+__CPROVER_ensures(VF_RV == 0 || VF_RV == EINVAL || VF_RV == EOVERFLOW || VF_RV == EEXIST || VF_RV == EBADMSG)
+__CPROVER_ensures((pkt == NULL || type == 0) ==> VF_RV == EINVAL)
+/* success: the attribute sits at the old end, new length = old + 2 + value bytes <= buffer */
+__CPROVER_ensures(VF_RV == 0 ==> (VF_RAD_LEN(pkt) == vf_rad_len_old + 2 + VF_RAD_ADD_VLEN(type, len) &&
+    VF_RAD_LEN(pkt) <= pkt_buf_size && VF_RAD_B(pkt, vf_rad_len_old) == type &&
+    VF_RAD_B(pkt, vf_rad_len_old + 1) == (uint8_t)(2 + VF_RAD_ADD_VLEN(type, len))))
+__CPROVER_ensures((VF_RV == 0 && type != 80 && vf_rad_k < len) ==>
+    VF_RAD_B(pkt, vf_rad_len_old + 2 + vf_rad_k) == data[vf_rad_k])
+__CPROVER_ensures((VF_RV == 0 && type == 2 && vf_rad_z < VF_RAD_ADD_VLEN(type, len) - len) ==>
+    VF_RAD_B(pkt, vf_rad_len_old + 2 + len + vf_rad_z) == 0)
+__CPROVER_ensures((VF_RV == 0 && type == 80 && vf_rad_z < 16) ==> VF_RAD_B(pkt, vf_rad_len_old + 2 + vf_rad_z) == 0)
+/* a well-formed value that fits IS accepted (User-Password included) */
+__CPROVER_ensures((pkt != NULL && VF_RAD_T_KNOWN(type) && type != 2 && type != 3 && type != 80 && len != 0 &&
+    VF_RAD_RFC_LEN_OK(type, len) && vf_rad_len_old + 2 + len <= pkt_buf_size) ==> VF_RV == 0)
+__CPROVER_ensures((VF_RV == EOVERFLOW) ==> vf_rad_len_old + 2 + VF_RAD_ADD_VLEN(type, len) > pkt_buf_size)
+__CPROVER_ensures(VF_RV == 0 ==> VF_RAD_PREFIX_KEPT(pkt, vf_rad_len_old))
+__CPROVER_ensures((pkt != NULL && VF_RV != 0) ==> (VF_RAD_LEN_KEPT(pkt) && (vf_rad_k >= vf_rad_span || VF_RAD_B(pkt, vf_rad_k) == vf_rad_old)))
+__CPROVER_ensures((VF_RV == 0 && offset_ret != NULL) ==> *offset_ret == vf_rad_len_old)
+;
 
 #endif /* !VF_REPLAY */
 #endif /* VF_CONTRACTS_RADIUS_H */
